@@ -1733,7 +1733,12 @@ func (n *node) Creation() int64 {
 }
 
 func (n *node) sendExitMessage(from gen.PID, to gen.PID, message any) error {
-	value, loaded := n.processes.Load(to)
+	// a process that is still in its ProcessInit callback can be linked already
+	// (it is looked up first: spawn registers the process before it takes it out of there)
+	value, loaded := n.initializing.Load(to)
+	if loaded == false {
+		value, loaded = n.processes.Load(to)
+	}
 	if loaded == false {
 		return gen.ErrProcessUnknown
 	}
